@@ -136,6 +136,9 @@ def run(ctx, n, failures):
             if not c["fail_items"] and sorted(got["trace"]) != list(range(c["n_items"])):
                 prop_bad = ("all threads ended but the work items were not trained exactly once each: kernel calls ran "
                             "for items %r" % (got["trace"],))
+            elif not c["fail_items"] and r["status"] != "ok" and \
+                    r.get("type") in ("AttributeError", "TypeError", "NotImplementedError"):
+                pass        # the code asked the stand-ins for something they do not offer: see (2)
             elif not c["fail_items"] and r["status"] != "ok":
                 prop_bad = "the call raised %s %s although no kernel call failed" % (r.get("type"), r.get("message"))
             elif got["errs"] and r["status"] == "ok":
@@ -144,6 +147,8 @@ def run(ctx, n, failures):
         bad = None
         if r["stuck"]:
             bad = "a worker thread did not reach its next step: %s" % r["stuck"]
+        elif r["status"] != "ok" and r.get("type") in ("AttributeError", "TypeError", "NotImplementedError"):
+            bad = "the call raised %s %s (the stand-ins cannot follow the code any more)" % (r.get("type"), r.get("message"))
         elif any(e[0] == "blocked_in_get" for e in log):
             bad = "a worker thread called get() on an empty queue (it would block for ever)"
         elif r["n_items"] != c["n_items"]:
